@@ -14,7 +14,8 @@ use crate::tools::parse_timezone;
 
 pub fn timezone_regex_parser(config: &SmartCalcConfig, tokinizer: &mut Tokinizer, group_item: &[Regex]) {
     for re in group_item.iter() {
-        for capture in re.captures_iter(&tokinizer.data.to_owned().to_uppercase()) {
+        /* The pattern is case insensitive, the positions must belong to the original text */
+        for capture in re.captures_iter(&tokinizer.data.to_owned()) {
             if let Some((timezone, offset)) = parse_timezone(config, &capture) {
                 if tokinizer.add_token_from_match(&capture.get(0), Some(TokenType::Timezone(timezone, offset))) {
                     tokinizer.add_uitoken_from_match(capture.name("timezone"), UiTokenType::Symbol1);
